@@ -628,6 +628,27 @@ class Gen(object):
                 out.append(['py:for', 'it in l1'])
         return out
 
+    def combo_dirs(self, base, p_i18n=0.25, p_py=0.3):
+        """directive list of an element that carries NO message directive (its text, included
+        attributes and gettext calls are looked up by the translation pass itself): `base` plus any
+        combination of the other non-extracting i18n directives (comment / ctxt / domain) and one to
+        three control-flow directives.  `Translator.extract` and `Translator.__call__` walk such a
+        list with loops that edit it under their own iterator, so what happens to the content
+        depends on the whole combination - every combination has to reach the oracle."""
+        r = self.rng
+        ds = [list(d) for d in base]
+        have = set(d[0] for d in ds)
+        for name in ('i18n:comment', 'i18n:ctxt', 'i18n:domain'):
+            if name not in have and r.random() < p_i18n:
+                ds.append([name, self.words() if name == 'i18n:comment' else
+                           r.choice(CONTEXTS) if name == 'i18n:ctxt' else r.choice(DOMAINS)])
+        if not any(d[0].startswith('py:') for d in ds) and r.random() < p_py:
+            pool = [['py:if', r.choice(BOOL_VARS)], ['py:strip', ''], ['py:for', 'it in l1'], ['py:with', 'w1 = s1']]
+            r.shuffle(pool)
+            ds.extend(pool[:r.choice([1, 1, 1, 2, 2, 3])])
+        r.shuffle(ds)                  # attribute order in the source does not matter: the engine sorts
+        return ds
+
     def inline(self, depth, in_msg, params, dirs_ok=True, alpha=None, maxparams=3, lvl=0, plain=False):
         """content nodes; inside a message (`in_msg`) expressions take a parameter name each"""
         r = self.rng
@@ -704,6 +725,10 @@ class Gen(object):
             dirs = [['i18n:msg', value]] + self.pydirs(0.12)
             if r.random() < 0.15:
                 dirs.insert(0, ['i18n:comment', self.words()])
+            if r.random() < 0.2:
+                # the message shares its element with other non-extracting i18n directives and
+                # with control-flow directives
+                dirs = self.combo_dirs(dirs, p_i18n=0.3, p_py=0.3)
             r.shuffle(dirs)
             tag = r.choice([t for t in TAGS if t not in self.config['ignore_tags']])
             return ['e', tag, self.attrs(lang_ok=False), dirs, kids]
@@ -744,7 +769,11 @@ class Gen(object):
         if r.random() < 0.8:
             value = '%s; %s' % (nv, pv) if params or r.random() < 0.5 else nv
             ctag = r.choice([t for t in ['div', 'p', 'ul'] if t not in self.config['ignore_tags']])
-            return ['e', ctag, self.attrs(lang_ok=False), [['i18n:choose', value]], kids]
+            cdirs = [['i18n:choose', value]]
+            if r.random() < 0.25:
+                # ... and so does the plural choice (ChooseDirective.__call__ as repaired applies them)
+                cdirs = self.combo_dirs(cdirs, p_i18n=0.3, p_py=0.5)
+            return ['e', ctag, self.attrs(lang_ok=False), cdirs, kids]
         return ['d', 'i18n:choose', [['numeral', nv], ['params', pv]], kids]
 
     def plain_elem(self, depth, excl):
@@ -774,7 +803,8 @@ class Gen(object):
             if r.random() < 0.5:
                 return ['d', 'i18n:domain', [['name', r.choice(DOMAINS)]], self.blocks(depth - 1, excl)]
             tag, attrs, ex = self.plain_elem(depth, excl)
-            return ['e', tag, attrs, [['i18n:domain', r.choice(DOMAINS + [''])]] + self.pydirs(0.1), self.blocks(depth - 1, ex)]
+            return ['e', tag, attrs, self.combo_dirs([['i18n:domain', r.choice(DOMAINS + [''])]] + self.pydirs(0.1)),
+                    self.blocks(depth - 1, ex)]
         if q < 0.63 and depth > 0:
             if r.random() < 0.3:
                 return ['d', 'i18n:ctxt', [['name', r.choice(CONTEXTS)]], self.blocks(depth - 1, excl)]
@@ -783,17 +813,17 @@ class Gen(object):
                 dirs.append(['i18n:domain', r.choice(DOMAINS)])
                 r.shuffle(dirs)
             tag, attrs, ex = self.plain_elem(depth, excl)
-            return ['e', tag, attrs, dirs, self.blocks(depth - 1, ex)]
+            return ['e', tag, attrs, self.combo_dirs(dirs), self.blocks(depth - 1, ex)]
         if q < 0.67 and depth > 0:
             tag, attrs, ex = self.plain_elem(depth, excl)
-            return ['e', tag, attrs, [['i18n:comment', self.words()]], self.blocks(depth - 1, ex)]
+            return ['e', tag, attrs, self.combo_dirs([['i18n:comment', self.words()]]), self.blocks(depth - 1, ex)]
         if q < 0.73:
             tag = r.choice(IGNORED)
             kids = [self.text()] if r.random() < 0.8 else [self.text(), ['e', 'b', self.attrs(), [], [self.text()]]]
             return ['e', tag, self.attrs(), [], kids]
         if depth > 0:
             tag, attrs, ex = self.plain_elem(depth, excl)
-            return ['e', tag, attrs, self.pydirs(), self.blocks(depth - 1, ex)]
+            return ['e', tag, attrs, self.combo_dirs(self.pydirs(), p_i18n=0.06, p_py=0.05), self.blocks(depth - 1, ex)]
         return self.text()
 
     def blocks(self, depth, excl=False):
